@@ -1,5 +1,37 @@
+"""Sidecar contracts for a5/core/serialization.py (loop ordinals are in source order)."""
 from ..pyvc.contracts import Contract, LoopContract
+
+CHILDREN = "a5.core.serialization.cell_to_children"
+
+
+SERIALIZE = "a5.core.serialization.serialize"
 
 
 def register(reg):
-    pass
+    # serialize, for modular use by its callers.  Proved against the body by the C05 tasks
+    # `serialize[r=..]` (post:result==ENC(cell), every-fitting-cell-encodes, never-silently-encodes-unfit-position).
+    reg.add(Contract(
+        SERIALIZE,
+        requires=[("shape", "-1 <= cell['resolution'] and cell['resolution'] <= 29 and 0 <= cell['segment'] and "
+                            "cell['segment'] < 5 and cell['S'] >= 0")],
+        raises={"ValueError": "cell['resolution'] >= 0 and cell['S'] >= SLIMIT(cell['resolution'])"},
+        ensures=[("enc", "result == ENC_CELL(cell)")],
+        result_type="int",
+    ))
+    # cell_to_children: loops 0 and 1 (faces, segments) iterate over concrete lists of at most 12 and 5
+    # elements and are unrolled completely; loop 2 appends `children_count` ids and carries the invariant
+    # "everything emitted so far is the specified prefix of the result".
+    reg.add(Contract(
+        CHILDREN,
+        loops={
+            2: LoopContract(
+                counter="_i",
+                invariant=[
+                    ("emitted-count", "len(children) == len(old_children) + _i"),
+                    ("emitted-prefix-is-specified",
+                     "all(children[k] == CHILDK(origin.id, origin.first_quintant, segment, S, current_resolution, "
+                     "new_resolution, k, FQ_OF) for k in range(0, len(children)))"),
+                ],
+            ),
+        },
+    ))
